@@ -225,25 +225,30 @@ func (fs *c11FS) resolve(p string) (string, *c11Node) {
 
 var errC11Injected = errors.New("injected failure")
 
+// c11Info is a value snapshot of a node taken under the backend lock (responses are marshalled later, on another goroutine).
 type c11Info struct {
-	name string
-	n    *c11Node
+	name  string
+	size  int64
+	mode  os.FileMode
+	mtime uint32
 }
 
-func (i c11Info) Name() string { return i.name }
-func (i c11Info) Size() int64  { return int64(len(i.n.data)) }
-func (i c11Info) Mode() os.FileMode {
-	m := os.FileMode(i.n.mode & 0o777)
-	if i.n.dir {
+func c11InfoOf(name string, n *c11Node) c11Info {
+	m := os.FileMode(n.mode & 0o777)
+	if n.dir {
 		m |= os.ModeDir
 	}
-	if i.n.isLnk {
+	if n.isLnk {
 		m |= os.ModeSymlink
 	}
-	return m
+	return c11Info{name, int64(len(n.data)), m, n.mtime}
 }
-func (i c11Info) ModTime() time.Time { return time.Unix(int64(i.n.mtime), 0) }
-func (i c11Info) IsDir() bool        { return i.n.dir }
+
+func (i c11Info) Name() string       { return i.name }
+func (i c11Info) Size() int64        { return i.size }
+func (i c11Info) Mode() os.FileMode  { return i.mode }
+func (i c11Info) ModTime() time.Time { return time.Unix(int64(i.mtime), 0) }
+func (i c11Info) IsDir() bool        { return i.mode.IsDir() }
 func (i c11Info) Sys() any           { return nil }
 
 func (fs *c11FS) newObj(kind string, r *sftp.Request, n *c11Node) *c11Obj {
@@ -588,7 +593,7 @@ func (fs *c11FS) filelist(r *sftp.Request, entry string) (sftp.ListerAt, error) 
 		sort.Strings(names)
 		rec.obj = fs.newObj("lister", r, n)
 		for _, q := range names {
-			rec.obj.infos = append(rec.obj.infos, c11Info{path.Base(q), fs.nodes[q]})
+			rec.obj.infos = append(rec.obj.infos, c11InfoOf(path.Base(q), fs.nodes[q]))
 		}
 		return c11Lister{rec.obj}, nil
 	case entry == "Lstat" || r.Method == "Lstat":
@@ -597,7 +602,7 @@ func (fs *c11FS) filelist(r *sftp.Request, entry string) (sftp.ListerAt, error) 
 			return nil, os.ErrNotExist
 		}
 		o := fs.newObj("statlister", r, n)
-		o.infos = []os.FileInfo{c11Info{path.Base(r.Filepath), n}}
+		o.infos = []os.FileInfo{c11InfoOf(path.Base(r.Filepath), n)}
 		return c11Lister{o}, nil
 	case r.Method == "Stat":
 		_, n := fs.resolve(r.Filepath)
@@ -605,7 +610,7 @@ func (fs *c11FS) filelist(r *sftp.Request, entry string) (sftp.ListerAt, error) 
 			return nil, os.ErrNotExist
 		}
 		o := fs.newObj("statlister", r, n)
-		o.infos = []os.FileInfo{c11Info{path.Base(r.Filepath), n}}
+		o.infos = []os.FileInfo{c11InfoOf(path.Base(r.Filepath), n)}
 		return c11Lister{o}, nil
 	case r.Method == "Readlink":
 		n, ok := fs.nodes[r.Filepath]
@@ -616,7 +621,7 @@ func (fs *c11FS) filelist(r *sftp.Request, entry string) (sftp.ListerAt, error) 
 			return nil, errors.New("memfs: not a symlink")
 		}
 		o := fs.newObj("statlister", r, n)
-		o.infos = []os.FileInfo{c11Info{n.link, n}}
+		o.infos = []os.FileInfo{c11InfoOf(n.link, n)}
 		return c11Lister{o}, nil
 	}
 	return nil, sftp.ErrSSHFxOpUnsupported
@@ -641,7 +646,7 @@ func (fs *c11FS) snapshot() map[string]string {
 			continue
 		}
 		sum := sha1.Sum(n.data)
-		out[strings.TrimPrefix(p, "/")] = fmt.Sprintf("%v %d:%d mtime=%d size=%d sha=%x -> %s", c11Info{"", n}.Mode(), n.uid, n.gid, n.mtime, len(n.data), sum[:6], n.link)
+		out[strings.TrimPrefix(p, "/")] = fmt.Sprintf("%v %d:%d mtime=%d size=%d sha=%x -> %s", c11InfoOf("", n).Mode(), n.uid, n.gid, n.mtime, len(n.data), sum[:6], n.link)
 	}
 	return out
 }
